@@ -138,6 +138,21 @@ def c18(prop, tier, seed, a):
                 unsup.append(dict(rec, note="IR verdict not reproduced natively"))
             else:
                 viol.append(rec)
+        elif not r.get("ok") and r.get("unsupported") == "out of bounds store":
+            # the erase stored outside the object it was given: more than the requested bytes are changed
+            key = (r["eraser"], r["storage"], r["cfg"], "oob")
+            if key in seen:
+                continue
+            seen.add(key)
+            rec = {k2: r.get(k2) for k2 in ("eraser", "storage", "size", "off", "len", "opt", "cfg", "client", "final_ir", "unit", "zero")}
+            rec["finding"] = {"kind": "erase", "msg": "store outside the erased object (" + str(r.get("where"))[:80] + ")", "byte": None}
+            k += 1
+            rp = irchecks.c18_replay(r, k) if k <= 6 else {"confirmed": None, "note": "not replayed"}
+            rec["replay_result"] = rp
+            if rp.get("confirmed") is False:
+                unsup.append(dict(rec, note="IR verdict not reproduced natively"))
+            else:
+                viol.append(rec)
         elif not r.get("ok"):
             unsup.append({k2: r.get(k2) for k2 in ("eraser", "storage", "size", "opt", "cfg", "unsupported", "where")})
         else:
